@@ -329,14 +329,23 @@ func (w *world) subscribe(s int) map[string]interface{} {
 		}
 		return res
 	}
+	// the subscription field stands in the operation itself, in an inline fragment or in a named fragment spread there
+	field := fmt.Sprintf("watch(sub: %d) { %s }", s, sel)
+	switch (s + worldCount) % 3 {
+	case 1:
+		field = "... on Subscription { " + field + " }"
+	case 2:
+		frags += " fragment Root on Subscription { " + field + " }"
+		field = "...Root"
+	}
 	// the subscriber's variable comes with the request or is defaulted by it
 	switch {
 	case !usesHide:
-		return w.root.ResolveString(fmt.Sprintf("subscription { watch(sub: %d) { %s } }%s", s, sel, frags), "", nil)
+		return w.root.ResolveString(fmt.Sprintf("subscription { %s }%s", field, frags), "", nil)
 	case s%2 == 1:
-		return w.root.ResolveString(fmt.Sprintf("subscription($hide: Boolean) { watch(sub: %d) { %s } }%s", s, sel, frags), "", map[string]interface{}{"hide": hide})
+		return w.root.ResolveString(fmt.Sprintf("subscription($hide: Boolean) { %s }%s", field, frags), "", map[string]interface{}{"hide": hide})
 	}
-	return w.root.ResolveString(fmt.Sprintf("subscription($hide: Boolean = %v) { watch(sub: %d) { %s } }%s", hide, s, sel, frags), "", nil)
+	return w.root.ResolveString(fmt.Sprintf("subscription($hide: Boolean = %v) { %s }%s", hide, field, frags), "", nil)
 }
 
 func (w *world) reg() []int {
